@@ -61,16 +61,8 @@ func applyAggregationsToResult(aggs *structs.QueryAggregators, segmentSearchReco
 	}
 	defer sharedReader.Close()
 
-	usedByTimechart := aggs.UsedByTimechart()
-	if (aggs != nil && aggs.GroupByRequest != nil) || usedByTimechart {
-		cname, ok := checkIfGrpColsPresent(aggs.GroupByRequest, sharedReader.MultiColReaders[0],
-			allSearchResults)
-		if !ok && !usedByTimechart {
-			log.Errorf("qid=%v, applyAggregationsToResult: cname: %v was not present", qid, cname)
-			return fmt.Errorf("qid=%v, applyAggregationsToResult: cname: %v was not present", qid,
-				cname)
-		}
-	}
+	// A group-by or measure column that no record of this segment has is not an error: the
+	// records still belong to their groups, with that field absent (addRecordToAggregations).
 
 	rupReader, err := segread.InitNewRollupReader(searchReq.SegmentKey, config.GetTimeStampKey(), qid)
 	if err != nil {
@@ -216,7 +208,8 @@ func addRecordToAggregations(grpReq *structs.GroupByRequest, timeHistogram *stru
 				groupbyColKeyIndices = append(groupbyColKeyIndices, cKeyidx)
 				colsToReadIndices[cKeyidx] = struct{}{}
 			} else {
-				nodeRes.StoreGlobalSearchError(fmt.Sprintf("addRecordToAggregations: failed to find keyIdx in mcr for groupby cname: %v", col), log.ErrorLevel, nil)
+				// no record of the segment has this column: it takes part in the key as an absent field
+				groupbyColKeyIndices = append(groupbyColKeyIndices, -1)
 			}
 		}
 	}
@@ -227,6 +220,11 @@ func addRecordToAggregations(grpReq *structs.GroupByRequest, timeHistogram *stru
 		if ok {
 			idxToIndicies[cKeyidx] = indices
 			colsToReadIndices[cKeyidx] = struct{}{}
+		} else {
+			// no record of the segment has this column: every record contributes an absent value
+			for _, idx := range indices {
+				measureResults[idx] = sutils.CValueEnclosure{Dtype: sutils.SS_DT_BACKFILL}
+			}
 		}
 	}
 	// Convert to a slice to optimize for read-only iteration.
@@ -320,6 +318,10 @@ func addRecordToAggregations(grpReq *structs.GroupByRequest, timeHistogram *stru
 				rawVal, err := multiColReader.ReadRawRecordFromColumnFile(colKeyIndex, blockNum, recNum, qid, false)
 				if err != nil {
 					nodeRes.StoreGlobalSearchError(fmt.Sprintf("addRecordToAggregations: Failed to get key for column %v", colKeyIndex), log.ErrorLevel, err)
+					copy(aggsKeyWorkingBuf[aggsKeyBufIdx:], sutils.VALTYPE_ENC_BACKFILL)
+					aggsKeyBufIdx += 1
+				} else if len(rawVal) == 0 {
+					// the column does not exist in this block: same key as a record without the field
 					copy(aggsKeyWorkingBuf[aggsKeyBufIdx:], sutils.VALTYPE_ENC_BACKFILL)
 					aggsKeyBufIdx += 1
 				} else {
@@ -1285,21 +1287,4 @@ func ApplyAgileTree(str *segread.AgileTreeReader, aggs *structs.QueryAggregators
 		log.Errorf("qid=%v, ApplyAgileTree: failed to JIT agileTree aggs, err: %v", qid, err)
 		return
 	}
-}
-
-func checkIfGrpColsPresent(grpReq *structs.GroupByRequest,
-	mcsr *segread.MultiColSegmentReader, allSearchResults *segresults.SearchResults) (string, bool) {
-	measureInfo, _ := allSearchResults.BlockResults.GetConvertedMeasureInfo()
-	for _, cname := range grpReq.GroupByColumns {
-		if !mcsr.IsColPresent(cname) {
-			return cname, false
-		}
-	}
-
-	for cname := range measureInfo {
-		if !mcsr.IsColPresent(cname) {
-			return cname, false
-		}
-	}
-	return "", true
 }
